@@ -86,7 +86,7 @@ pub fn gen_reqs(r: &mut Rng) -> (Reqs, bool) {
             always,
             if_req,
             prefixes,
-            build: *r.pick(&[0u8, 1, 2, 4]),
+            build: *r.pick(&[0u8, 1, 2, 4, 5]),
         },
         mixed,
     )
@@ -448,7 +448,7 @@ pub fn run(tier: Tier) -> i32 {
     for k in ["host", "always", "if-present", "prefix"] {
         ctx.gate(&format!("requirement kind '{}' violated alone with an otherwise valid signature, refused", k), tally.get(&format!("violated_alone/{}", k)), tier.n(300, 1000));
     }
-    for b in [0, 1, 2, 4] {
+    for b in [0, 1, 2, 4, 5] {
         ctx.gate(&format!("satisfied and accepted via construction path {}", b), tally.get(&format!("satisfied_accepted/build{}", b)), tier.n(300, 1000));
     }
     ctx.gate("always-required header missing from request and list, refused", tally.get("always_required_header_absent_from_the_request"), tier.n(300, 5000));
